@@ -411,21 +411,24 @@ SPECS.update(_ar())
 
 # ------------------------------------------------------------------ deadlock detection
 SPECS["lib.rs::has_path"] = dict(pure=True,
+    # the two locals the invariants must mention are found by their initialisers, whatever they are called
+    binders={"current": r"let\s+mut\s+(\w+)\s*=\s*from\s*;", "max_steps": r"let\s+(\w+)\s*=\s*graph\s*\.\s*len\s*\(\s*\)"},
     ensures=[
         C("has_path.sound_only_true_if_chain_exists", "C15", "r ==> reach(graph@, from, to)"),
         C("has_path.complete_finds_every_chain", "C14", "reach(graph@, from, to) ==> r"),
     ],
     loops={"loop#1": dict(
         invariant=[
-            C("has_path.inv.step_bound_is_graph_size", "C14", "max_steps == graph@.dom().len()"),
-            C("has_path.inv.current_is_ith_successor", "C14 C15", "walk(graph@, from, _vx_i as nat) == Some(current)"),
+            C("has_path.inv.step_bound_is_graph_size", "C14", "$max_steps == graph@.dom().len()"),
+            C("has_path.inv.current_is_ith_successor", "C14 C15", "walk(graph@, from, _vx_i as nat) == Some($current)"),
             C("has_path.inv.target_not_met_so_far", "C14", "forall|j: nat| 1 <= j <= _vx_i ==> walk(graph@, from, j) != Some(to)"),
         ],
         after="proof { if reach(graph@, from, to) { lemma_reach_bounded(graph@, from, to); } }",
     )},
     proofs=[
         ("return true;", "proof { assert(walk(graph@, from, (_vx_i + 1) as nat) == Some(to)); }", "before"),
-        ("None => return false", "None => { proof { assert(walk(graph@, from, (_vx_i + 1) as nat) is None); lemma_no_reach_after_none(graph@, from, to, _vx_i as nat); } return false }", "replace"),
+        ([r"None\s*=>\s*return\s+false", r"else\s*\{\s*return\s+false\s*;\s*\}"],
+         "None_OR_ELSE", "none_branch"),
     ])
 SPECS["lib.rs::Drop for WaitForGuard::drop"] = dict(
     raii={"init:.lock(": "drop"}, no_panic=True, by_value=True,
